@@ -236,6 +236,12 @@ def random_script(rnd, passes):
     """Control script: start early, then up to 4 more calls at random passes; some entries are two calls made
     back to back ("reset+start"), some are placed in the middle of a batch ("~stop")."""
     s = ["-"] * passes
+    if rnd.random() < 0.12 and passes >= 5:
+        # pause ... resume, then reset and start again at once (a held result must not leak into the new run)
+        i = rnd.choice((1, 1, 2))
+        j = rnd.randrange(i + 1, passes - 1)
+        s[0], s[i], s[j], s[j + 1] = "start", "pause", "resume", rnd.choice(("reset+start", "reset+start", "stop+reset+start"))
+        return s
     s[rnd.choice((0, 0, 0, 1))] = "start"
     for _ in range(rnd.choice((0, 1, 2, 2, 3, 3, 4))):
         i = rnd.randrange(passes)
